@@ -729,14 +729,20 @@ Lemma f_of_Z_60000 : f_of_Z 60000 = Ok (Fin 60000 0). Proof. vm_compute. reflexi
 
 Definition turn : Z := 21600000%Z.
 
+(** BaseFloatType.validate (float(value) first, then the nan / inf tests) accepts every finite float *)
+Lemma bft_validate_fin m e : BaseFloatType__validate (PFloat (Fin m e)) = Ok PNone.
+Proof.
+  unfold BaseFloatType__validate.
+  cbn [py_isinstance existsb isinstance1 orb as_bool bind py_truth negb py_float].
+  unfold py_ne. cbn [py_eqb as_num cmp_num]. rewrite f_cmp_fin, Z.compare_refl. reflexivity.
+Qed.
+
 Lemma angle_to_xml_inv m e s : ST_Angle__to_xml (PFloat (Fin m e)) = Ok (PStr s) ->
   exists m0 e0 m1 e1 k, f_mod (Fin m e) (Fin 360 0) = Ok (Fin m0 e0)
     /\ f_mul (Fin m0 e0) (Fin 60000 0) = Fin m1 e1 /\ f_round (Fin m1 e1) = Ok k /\ s = str_of_Z (k mod turn).
 Proof.
-  unfold ST_Angle__to_xml, ST_Angle__validate, BaseFloatType__validate, ST_Angle__convert_to_xml.
-  rewrite !py_float_inf, !py_float_ninf.
-  cbn [py_isinstance existsb isinstance1 orb as_bool bind py_truth negb py_ne py_eqb as_num cmp_num f_cmp].
-  rewrite Z.compare_refl. cbn [bind py_in existsb py_eqb as_num cmp_num f_cmp orb negb].
+  unfold ST_Angle__to_xml, ST_Angle__validate, ST_Angle__convert_to_xml.
+  rewrite bft_validate_fin. rewrite !py_float_inf, !py_float_ninf. cbn [bind].
   cbn [py_mul arith as_num num_float bind]. rewrite f_of_Z_60000. cbn [bind].
   destruct (f_mul (Fin m e) (Fin 60000 0)) as [ms es| | |] eqn:Es;
     cbn [bind py_in existsb py_eqb as_num cmp_num f_cmp orb negb]; try (intros X; discriminate X).
